@@ -33,6 +33,8 @@ def triple(v):
     """scalar -> (v,v,v); length-1 -> repeated; length-3 -> as is; integral values only.  None if not such a value."""
     if v is None:
         return None
+    if (isinstance(v, np.ndarray) and v.ndim == 0) or (isinstance(v, np.generic) and not isinstance(v, (float, int))):
+        return None            # numpy integer scalars / 0-d arrays for a size, centre or radii: input form outside the quantifier
     if isinstance(v, (list, tuple, np.ndarray)):
         seq = list(np.asarray(v).ravel()) if isinstance(v, np.ndarray) else list(v)
         if len(seq) == 1:
@@ -65,6 +67,8 @@ def centre_of(center, N):
 def rational(v, max_den=2 ** 60):
     """exact value of a (float/int) parameter as a Fraction (floats are dyadic rationals; k +- one ulp is accepted), else None"""
     try:
+        if isinstance(v, np.ndarray) and v.ndim == 0 and v.dtype.kind in "iuf":
+            v = v[()]                                          # 0-d array: the scalar it holds
         if isinstance(v, (bool, np.bool_)) or isinstance(v, (list, tuple, np.ndarray)):
             return None
         f = Fraction(float(v)) if not isinstance(v, (int, np.integer)) else Fraction(int(v))
@@ -78,6 +82,8 @@ def rational(v, max_den=2 ** 60):
 def sigma_of(g):
     """(sigma as float) if 0 <= sigma <= 3 else None"""
     try:
+        if isinstance(g, np.ndarray) and g.ndim == 0 and g.dtype.kind in "iuf":
+            g = g[()]
         if isinstance(g, (bool, np.bool_, list, tuple, np.ndarray)):
             return None
         s = float(g)
